@@ -25,6 +25,16 @@ Streams
              (functions with 11..16 call sites with distinct argument classes, self- / mutually
              recursive functions, helper calls; gen/c16_dynparams.py, corpus/C16): every ordered
              pair of parameter queries, random longer sessions
+  memosession the same oracle on programs in which a value reaches a name through a memo in every way
+             that works here (gen/c16_memo.py: sphinx / epydoc docstring types, plain and string
+             annotations, decorators, call-site dependent results, generators, comprehensions,
+             properties, class / instance attributes via several instances, special methods,
+             closures, a second module, pytest fixtures), every definition used at several sites;
+             sessions of DISTINCT queries at different sites (ordered pairs, permutations of up to 8);
+             after every query the real memo is scanned for remembered one-shot iterators
+  memoreplay / memostack  the real memo decorators on a function producing 0..n-1, read by successive
+             consumers that take k_i elements vs Model.Determinism.Stored.reads; random decorator
+             stacks: does a memo of the stack remember a one-shot iterator vs stackReplayable
   fault      an exception is injected at the k-th inference step of a query; afterwards all
              switches must have their defaults and the recursion stacks must be empty
 
@@ -68,6 +78,13 @@ MANIFEST = dict(
          '(dyn_bracket_transcribed; dyn_depth_zero_at_every_boundary; top_level_search_sees_all_sites; '
          'kernel-checked witness for the increment moved before the with block: 12 call sites fresh, 10 after a '
          'self-recursive lookup); '
+         'every function of jedi/ under a memo decorator (table extracted by walking all of jedi/) that hands out a '
+         'one-shot iterator has a materialising decorator (to_list, to_tuple, iterator_to_value_set) between itself '
+         'and the memo, or the memo is one of the two that consume generators themselves '
+         '(memo_values_are_replayable_partial: all but the known pytest-plugin entry; memo_stack_order_matters); a '
+         'memo holding a materialised container or the (generator, list) pair of the generator cache answers every '
+         'reader the same (materialised_memo_replayable, generator_cache_replayable), one holding the generator '
+         'itself does not (one_shot_memo_not_replayable); '
          'on acyclic dependency graphs the memoised evaluator answers independently of earlier queries '
          '(memo_order_independent_acyclic; 2-cycle witness). Tie: translator + correspondence on real Name '
          'objects and real primitives + direct oracles (hash seeds, iteration orders, query permutations).',
@@ -536,6 +553,94 @@ def stream_machine(ctx, reqs, cap, factor):
                            short({'case': case, 'state': impl, 'dynamic_params_depth after each query': boundary}, 1200))
         cases.append((('machine', case), impl))
         reqs.append({'op': 'session', 'cap': cap, 'factor': factor, 'queries': queries})
+    return cases
+
+
+# ----------------------------------------------------------------- stream: memoreplay
+
+class MemoObj:
+    """an object every memo decorator accepts as first argument"""
+    def __init__(self):
+        self.inference_state = C15.FakeState()
+        self.memoize_cache = self.inference_state.memoize_cache
+
+
+def real_decorator(name):
+    from jedi.inference import cache as icache
+    from jedi import cache as tcache, debug
+    from jedi.inference import utils
+    from jedi.inference.base_value import iterator_to_value_set
+    table = {
+        'inference_state_method_cache': lambda: icache.inference_state_method_cache(),
+        'inference_state_function_cache': lambda: icache.inference_state_function_cache(),
+        'memoize_method': lambda: tcache.memoize_method,
+        'inference_state_method_generator_cache': lambda: icache.inference_state_method_generator_cache(),
+        'to_list': lambda: utils.to_list, 'to_tuple': lambda: utils.to_tuple,
+        'iterator_to_value_set': lambda: iterator_to_value_set,
+        'increase_indent': lambda: debug.increase_indent,
+    }
+    return table[name]()
+
+
+def decorate(decorators, one_shot, n):
+    """the real decorators (outermost first) on a function producing 0 .. n-1"""
+    if one_shot:
+        def f(obj):
+            for i in range(n):
+                yield i
+    else:
+        def f(obj):
+            return list(range(n))
+    for d in reversed(decorators):
+        f = real_decorator(d)(f)
+    return f
+
+
+def stream_memoreplay(ctx, reqs):
+    """(a) a memoised function read by successive consumers that take k_i elements each, with the real
+    decorators, vs Model.Determinism.Stored.reads; (b) random decorator stacks: do two complete reads
+    give the same, complete result? vs Model.Determinism.stackReplayable (the predicate of the
+    theorem memo_values_are_replayable)"""
+    rng = ctx.subrng('memoreplay')
+    cases = []
+    kinds = {'plain': ['inference_state_method_cache'], 'function_cache': ['inference_state_function_cache'],
+             'memoize_method': ['memoize_method'], 'to_list': ['inference_state_method_cache', 'to_list'],
+             'to_tuple': ['memoize_method', 'to_tuple'], 'generator_cache': ['inference_state_method_generator_cache']}
+    model_kind = {'plain': 'plain', 'function_cache': 'plain', 'memoize_method': 'plain', 'to_list': 'materialised',
+                  'to_tuple': 'materialised', 'generator_cache': 'generator_cache'}
+    for i in range(ctx.size(150, 2000)):
+        kind = rng.choice(sorted(kinds))
+        n = rng.randint(0, 5)
+        reads = [rng.randint(0, n + 1) for _ in range(rng.randint(1, 4))]
+        f = decorate(kinds[kind], True, n)
+        obj = MemoObj()
+        impl = [list(itertools.islice(f(obj), k)) for k in reads]
+        case = {'kind': kind, 'n': n, 'reads': reads}
+        cases.append((('memoreplay', case), impl))
+        reqs.append({'op': 'memo', 'kind': model_kind[kind], 'n': n, 'reads': reads})
+    names = ['inference_state_method_cache', 'inference_state_function_cache', 'memoize_method',
+             'inference_state_method_generator_cache', 'to_list', 'to_tuple', 'iterator_to_value_set', 'increase_indent']
+    for i in range(ctx.size(150, 2000)):
+        decorators = [rng.choice(names) for _ in range(rng.randint(1, 3))]
+        one_shot = rng.random() < 0.7
+        n = rng.randint(1, 4)
+        obj = MemoObj()
+        try:
+            f = decorate(decorators, one_shot, n)
+            got = [sorted(f(obj)) for _ in range(3)]
+            # the mechanism the theorem speaks about: no memo of the stack remembers a one-shot iterator
+            # (an outer generator-aware memo can hide an inner one that does) - and then every read is complete
+            stored = [v for memo in list(obj.memoize_cache.values()) + list(obj.__dict__.get('_memoize_method_dct', {}).values())
+                      for v in memo.values()]
+            holds_one_shot = any(hasattr(type(v), '__next__') for v in stored)
+            impl = not holds_one_shot
+            if impl and got != [list(range(n))] * 3:
+                ctx.tie_broken('memostack: replayable memo values but different reads', short({'decorators': decorators, 'reads': got}))
+        except TypeError:
+            impl = False        # a generator-aware memo on a function that returns no iterator
+        case = {'decorators': decorators, 'one_shot': one_shot, 'n': n}
+        cases.append((('memostack', case), impl))
+        reqs.append({'op': 'stack', 'decorators': decorators, 'one_shot': one_shot})
     return cases
 
 
@@ -1172,6 +1277,14 @@ def compare(ctx, cases, answers):
             dup = len(key[1]) - len(impl) if impl and impl[0] != 'EXC' else 0
             ctx.count('sort', key[1], nontrivial=len(key[1]) > 1, bucket='n=%d/dups=%d' % (min(len(key[1]), 5), min(dup, 3)),
                       sample={'names': key[1], 'result_kinds': impl})
+        elif stream == 'memoreplay':
+            c = key[1]
+            ctx.count('memoreplay', c, nontrivial=len(c['reads']) > 1 and c['n'] > 0,
+                      bucket='%s/reads=%d' % (c['kind'], len(c['reads'])), sample={'case': c, 'reads_see': impl})
+        elif stream == 'memostack':
+            c = key[1]
+            ctx.count('memostack', c, nontrivial=True, bucket='replayable=%s/one_shot=%s' % (impl, c['one_shot']),
+                      sample={'case': c, 'replayable': impl})
         else:
             ctx.count('machine', key[1], nontrivial=any(r for r, s in impl['queries']) or any(not all(s) for r, s in impl['queries']),
                       bucket='q=%d' % min(len(impl['queries']), 9), sample={'case': key[1], 'result': impl})
@@ -1211,6 +1324,7 @@ def run(ctx):
             walls.append('%s=%.1fs' % (name, time.time() - t0))
     cases += timed('sort', stream_sort, ctx, reqs)
     cases += timed('machine', stream_machine, ctx, reqs, cap, factor)
+    cases += timed('memoreplay', stream_memoreplay, ctx, reqs)
     with PrivateCache() as pcache, SearchHook():
         timed('eqclass', stream_eqclass, ctx)
         timed('order', stream_order, ctx)
@@ -1241,6 +1355,11 @@ def run(ctx):
         'memoised results of the dynamic parameter search are not modelled (two known findings: recursion default '
         'memoised, search truncated at nested depth); the model covers the depth counter and the recursion guard, '
         'stream dynsession compares real answers',
+        'memo table: "hands out a one-shot iterator" is decided syntactically per function (yield / yield from, '
+        'return of a generator expression or of map/filter/zip/iter/chain); a function that returns the result of '
+        'calling another generator function is not seen statically - the scan of the real memo after every query of '
+        'the session streams (memo_one_shot) is what covers it; undecorated ad-hoc caches (dict attributes) are not '
+        'in the table',
         'flow_analysis_enabled / is_analysis blocks are inline try/finally statements (no callable primitive): '
         'checked by fault injection on real queries (stream fault), not by the machine correspondence',
     ]
